@@ -164,7 +164,9 @@ theorem relocate_ok (s : St) (u : Nat) (dloc toP : List Nat) (ts : Int) (t n0 : 
 
 /-! ### no look-up error -/
 
-def IsLookup (e : MErr) : Prop := e = .findGroup ∨ e = .findEntry ∨ e = .generic
+/-- the errors the group passes cannot return: those of the look-ups, and `entryMtimeNotUpdated` (`Entry::merge` reports it for two
+    versions that are equal up to time stamps under one modification time; `merge_group` asks it only about versions that differ) -/
+def IsLookup (e : MErr) : Prop := e = .findGroup ∨ e = .findEntry ∨ e = .generic ∨ e = .entryMtimeNotUpdated
 
 /-- a result that is not one of the look-up errors -/
 def NoLk {α : Type} (x : Except MErr α) : Prop := ∀ e, x = .error e → ¬ IsLookup e
@@ -184,11 +186,10 @@ theorem NoLk.bind {α β : Type} {x : Except MErr α} {f : α → Except MErr β
     exact hx e rfl
   | ok a => exact hf a rfl
 
-theorem notLk_dup : ¬ IsLookup .duplicateHistory := by intro h; rcases h with h | h | h <;> cases h
-theorem notLk_noMtime : ¬ IsLookup .panicHistoryNoMtime := by intro h; rcases h with h | h | h <;> cases h
-theorem notLk_entryMtime : ¬ IsLookup .entryMtimeNotUpdated := by intro h; rcases h with h | h | h <;> cases h
-theorem notLk_groupMtime : ¬ IsLookup .groupMtimeNotUpdated := by intro h; rcases h with h | h | h <;> cases h
-theorem notLk_kind : ¬ IsLookup .panicKindMismatch := by intro h; rcases h with h | h | h <;> cases h
+theorem notLk_dup : ¬ IsLookup .duplicateHistory := by intro h; rcases h with h | h | h | h <;> cases h
+theorem notLk_noMtime : ¬ IsLookup .panicHistoryNoMtime := by intro h; rcases h with h | h | h | h <;> cases h
+theorem notLk_groupMtime : ¬ IsLookup .groupMtimeNotUpdated := by intro h; rcases h with h | h | h | h <;> cases h
+theorem notLk_kind : ¬ IsLookup .panicKindMismatch := by intro h; rcases h with h | h | h | h <;> cases h
 
 theorem phase1_noLk : ∀ (dst : List EData) (acc : AL), NoLk (phase1 dst acc) := by
   intro dst
@@ -242,13 +243,12 @@ theorem mergeHistory_noLk (w l : Entry) : NoLk (mergeHistory w l) := by
     exact historyMerge_noLk _ _ e1 h1
   · cases h
 
-theorem entryMerge_noLk (now : Int) (ex oe : Entry) : NoLk (entryMerge now ex oe) := by
+theorem entryMerge_noLk (now : Int) (ex oe : Entry) (hdiv : entryDiverged ex oe = true) : NoLk (entryMerge now ex oe) := by
   unfold entryMerge
   dsimp only
   split
-  · split
-    · exact NoLk.err _ notLk_entryMtime
-    · exact NoLk.ok _
+  · simp only [hdiv, Bool.not_true, Bool.false_eq_true, ↓reduceIte]
+    exact NoLk.ok _
   · intro e h
     split at h
     · rename_i e1 h1
@@ -263,10 +263,15 @@ theorem entryUpdate_noLk (now : Int) (ex oe : Entry) : NoLk (entryUpdate now ex 
   unfold entryUpdate at h
   split at h
   · cases h
-  · split at h
+  · rename_i hnd
+    have hdiv : entryDiverged ex oe = true := by
+      cases hd : entryDiverged ex oe with
+      | true => rfl
+      | false => simp [hd] at hnd
+    split at h
     · rename_i e1 h1
       injection h with h; subst h
-      exact entryMerge_noLk now ex oe e1 h1
+      exact entryMerge_noLk now ex oe hdiv e1 h1
     · cases h
     · split at h <;> cases h
 
@@ -677,21 +682,22 @@ theorem merge_noLk {EI GI : List Nat} (now : Int) (dst src : Db) (hS : Safe EI G
   obtain ⟨s3, tombs⟩ := x
   exact NoLk.pure _
 
-/-- **the only errors `merge` returns are the three that report conflicting time stamps**, when the two replicas agree on kinds
+/-- **the only errors `merge` returns are the two that report conflicting time stamps** (a group that differs between the
+    replicas under one modification time; a history holding two versions under one time), when the two replicas agree on kinds
     and every entry version carries a modification time -/
 theorem merge_errors {EI GI : List Nat} (now : Int) (dst src : Db) (hS : Safe EI GI dst.root) (hg : SrcPart EI GI src.root)
     (e : MErr) (h : merge now dst src = .error e) :
-    e = .entryMtimeNotUpdated ∨ e = .groupMtimeNotUpdated ∨ e = .duplicateHistory := by
+    e = .groupMtimeNotUpdated ∨ e = .duplicateHistory := by
   have h1 := merge_noPanic now dst src hS hg e h
   have h2 := merge_noLk now dst src hS hg e h
   have h3 := merge_noFuel now dst src hS.inv
   cases e with
   | findGroup => exact absurd (Or.inl rfl) h2
   | findEntry => exact absurd (Or.inr (Or.inl rfl)) h2
-  | generic => exact absurd (Or.inr (Or.inr rfl)) h2
-  | entryMtimeNotUpdated => exact Or.inl rfl
-  | groupMtimeNotUpdated => exact Or.inr (Or.inl rfl)
-  | duplicateHistory => exact Or.inr (Or.inr rfl)
+  | generic => exact absurd (Or.inr (Or.inr (Or.inl rfl))) h2
+  | entryMtimeNotUpdated => exact absurd (Or.inr (Or.inr (Or.inr rfl))) h2
+  | groupMtimeNotUpdated => exact Or.inl rfl
+  | duplicateHistory => exact Or.inr rfl
   | panicHistoryNoMtime => exact absurd (Or.inr rfl) h1
   | panicKindMismatch => exact absurd (Or.inl rfl) h1
   | outOfFuel => exact absurd h h3
